@@ -719,7 +719,7 @@ fn hint_program() -> BoxedStrategy<Vec<GOp>> {
         2 => e_src.clone().prop_map(|r| vec![GOp::AllocElem { dst: 0, src: r, mode: Mode::Witness, via: Via::Element }]),
         2 => e_src.prop_map(|r| vec![GOp::AllocElem { dst: 0, src: r, mode: Mode::Input, via: Via::Element }, GOp::Negate { dst: 1, a: 0 }]),
         // lazily allocated (possibly undecodable) operands that meet only in an equality / selection gadget
-        3 => (rl::fq_input(), rl::fq_input(), any::<bool>(), 0u8..5).prop_map(|(a, b, same, g)| {
+        3 => (rl::fq_input(), rl::fq_input(), any::<bool>(), 0u8..9).prop_map(|(a, b, same, g)| {
             let b = if same { a.clone() } else { b };
             let mut p = vec![GOp::AllocLazy { dst: 0, val: a, mode: Mode::Witness }, GOp::AllocLazy { dst: 1, val: b, mode: Mode::Input }];
             p.push(match g {
@@ -727,6 +727,10 @@ fn hint_program() -> BoxedStrategy<Vec<GOp>> {
                 1 => GOp::IsEq { a: 0, b: 1 },
                 2 => GOp::CondEnforceEqual { a: 0, b: 1, cond: true },
                 3 => GOp::CondSelect { dst: 2, cond: true, a: 0, b: 1 },
+                4 => GOp::CondSelect { dst: 2, cond: false, a: 0, b: 1 },
+                5 => GOp::CondSelectConst { dst: 2, cond: true, a: 0, b: 1 },
+                6 => GOp::CondSelectConst { dst: 2, cond: false, a: 0, b: 1 },
+                7 => GOp::CondEnforceEqualConst { a: 0, b: 1, cond: true },
                 _ => GOp::EnforceNotEqual { a: 0, b: 1 },
             });
             p
@@ -818,6 +822,8 @@ impl Property for C14 {
             vec![GOp::AllocLazy { dst: 0, val: Num(N::from(2u32)), mode: Mode::Witness }, GOp::AllocLazy { dst: 1, val: Num(N::from(2u32)), mode: Mode::Input }, GOp::EnforceEqual { a: 0, b: 1 }],
             vec![GOp::AllocLazy { dst: 0, val: Num(N::from(1u32)), mode: Mode::Witness }, GOp::AllocLazy { dst: 1, val: Num(N::from(1u32)), mode: Mode::Witness }, GOp::IsEq { a: 0, b: 1 }],
             vec![GOp::AllocLazy { dst: 0, val: Num(N::from(8u32)), mode: Mode::Witness }, GOp::AllocLazy { dst: 1, val: Num(N::from(3u32)), mode: Mode::Input }, GOp::CondSelect { dst: 2, cond: true, a: 0, b: 1 }],
+            vec![GOp::AllocLazy { dst: 0, val: Num(N::from(8u32)), mode: Mode::Witness }, GOp::AllocLazy { dst: 1, val: Num(N::from(3u32)), mode: Mode::Input }, GOp::CondSelectConst { dst: 2, cond: false, a: 0, b: 1 }],
+            vec![GOp::AllocLazy { dst: 0, val: Num(N::from(3u32)), mode: Mode::Witness }, GOp::AllocLazy { dst: 1, val: Num(N::from(8u32)), mode: Mode::Input }, GOp::CondSelectConst { dst: 2, cond: true, a: 0, b: 1 }],
         ];
         let mut v = Vec::new();
         for prog in &instances {
